@@ -395,6 +395,94 @@ func typecheckerFamily() *core.Family {
 	}
 }
 
+// (f) degenerate names: attribute names that are empty, one character, contain a dot, or look
+// like a request variable; an entity type named Action with attributes; every access path of
+// depth 1-3 over them from every request variable, read plainly, guarded and under `has`.
+// The validator builds paths and messages from these names; it must return in both modes.
+func degenerateNamesFamily() *core.Family {
+	const text = `
+entity U { "": { o?: Long, "": { o?: Long } }, a: { o?: Long }, "a.b": { o?: Long }, context: { o?: Long }, o?: Long } tags { o?: Long };
+entity Action { "": { o?: Long, "": { o?: Long } }, a: { o?: Long }, "a.b": { o?: Long }, context: { o?: Long }, o?: Long };
+action act appliesTo { principal: U, resource: U, context: { "": { o?: Long, "": { o?: Long } }, a: { o?: Long }, "a.b": { o?: Long }, context: { o?: Long }, o?: Long } };
+`
+	keys := []string{"", "a", "a.b", "context", "o", "zz"}
+	vars := []string{"principal", "action", "resource", "context"}
+	type path struct {
+		v    string
+		keys []string
+	}
+	var paths []path
+	for _, v := range vars {
+		for _, k1 := range keys {
+			paths = append(paths, path{v, []string{k1}})
+			for _, k2 := range keys {
+				paths = append(paths, path{v, []string{k1, k2}})
+				for _, k3 := range []string{"", "o"} {
+					paths = append(paths, path{v, []string{k1, k2, k3}})
+				}
+			}
+		}
+	}
+	mk := func(p path, n int) xast.Node {
+		e := map[string]xast.Node{"principal": xast.Principal(), "action": xast.Action(), "resource": xast.Resource(), "context": xast.Context()}[p.v]
+		for _, k := range p.keys[:n] {
+			e = e.Access(types.String(k))
+		}
+		return e
+	}
+	return &core.Family{
+		Name: "degenerate-names",
+		Desc: fmt.Sprintf("%d access paths of depth 1-3 over the attribute names %q from every request variable (entity type Action declared with attributes; optional members at every level): read, compared, under has, guarded by has of the same and of the parent path; Validator.Policy returns in both modes", len(paths), keys),
+		N:    int64(len(paths)),
+		Run: func(t *core.T, i int64) {
+			var sc schema.Schema
+			if err := sc.UnmarshalCedar([]byte(text)); err != nil {
+				t.Fail("harness-schema", text, "parses", err.Error())
+				return
+			}
+			rs, err := sc.Resolve()
+			if err != nil {
+				t.Fail("harness-schema", text, "resolves", err.Error())
+				return
+			}
+			vs, vp := validate.New(rs, validate.WithStrict()), validate.New(rs, validate.WithPermissive())
+			p := paths[i]
+			n := len(p.keys)
+			full := mk(p, n)
+			parent := mk(p, n-1)
+			last := types.String(p.keys[n-1])
+			conds := []xast.Node{
+				full.Equal(xast.Long(1)),
+				full,
+				parent.Has(last),
+				parent.Has(last).And(full.Equal(xast.Long(1))),
+				full.Equal(xast.Long(1)).And(parent.Has(last)),
+				xast.Not(parent.Has(last)).Or(full.Equal(xast.Long(1))),
+				xast.IfThenElse(parent.Has(last), full.Equal(xast.Long(1)), xast.True()),
+				full.Has("o"),
+				full.Has("o").And(full.Access("o").Equal(xast.Long(1))),
+			}
+			desc := fmt.Sprintf("%s%q", p.v, p.keys)
+			for k, c := range conds {
+				for _, unless := range []bool{false, true} {
+					pol := xast.Permit()
+					if unless {
+						pol = pol.Unless(c)
+					} else {
+						pol = pol.When(c)
+					}
+					d := fmt.Sprintf("%s condition %d unless=%v", desc, k, unless)
+					t.Protect("degenerate-names:Policy:strict", d, func() { _ = vs.Policy("p", pol) })
+					t.Protect("degenerate-names:Policy:permissive", d, func() { _ = vp.Policy("p", pol) })
+				}
+			}
+			t.AddStates(int64(2 * len(conds)))
+			t.Nontrivial()
+			t.Sample(desc)
+		},
+	}
+}
+
 // (c) action-group digraphs over 3 actions: 2^9
 func actionFamily() *core.Family {
 	return &core.Family{
@@ -577,7 +665,7 @@ func Check() *core.Check {
 			"a case is non-trivial if the schema resolved (so the validation battery ran)",
 		Assumptions: []string{"pairs of dimensions are not combined (one dimension at a time)", "a nil type inside a programmatically built schema AST is outside the domain (no decoder produces one)"},
 		Families: func(tier string) []*core.Family {
-			return []*core.Family{referenceFamily(), hierarchyFamily(), commonTypeFamily(), commonTypeNamespaceFamily(), commonTypeTwoRefFamily(tier), actionFamily(), typecheckerFamily()}
+			return []*core.Family{referenceFamily(), hierarchyFamily(), commonTypeFamily(), commonTypeNamespaceFamily(), commonTypeTwoRefFamily(tier), actionFamily(), typecheckerFamily(), degenerateNamesFamily()}
 		},
 	}
 }
